@@ -11,6 +11,7 @@
 #include <sstream>
 #include <sys/mman.h>
 
+// built with -fno-access-control: the pool-allocator replays materialise an arbitrary pool state exactly as the CBMC harness does
 #include "sonic/sonic.h"
 extern "C++" {
 #include "rfc8259.h"
